@@ -289,3 +289,58 @@ Section RelHist.
     destruct (spec_step (Ok views) gs o) as [gs' a]. rewrite (IH gs' Hh). reflexivity.
   Qed.
 End RelHist.
+
+(* ------------------------------------------------------------------ E. repeated get_dwarf_info *)
+(* the n-th call on one ELFFile object answers as a first call with the same flag would, and
+   the file image is what it was: for EVERY image and flag sequence *)
+Lemma dwarf_calls_map le is64 em secs section : forall flags st,
+  dwarf_calls le is64 em secs section st flags
+  = (map (read_dwarf_section le is64 em (eo_stream st) secs section) flags, st).
+Proof.
+  induction flags as [|f r IH]; intros st; [reflexivity|].
+  cbn [dwarf_calls dwarf_call map]. rewrite IH. reflexivity.
+Qed.
+
+Theorem dwarf_call_own_flag le is64 em img secs section flags n :
+  (n < length flags)%nat ->
+  nth n (fst (dwarf_calls le is64 em secs section (mkElfObj img) flags)) (Err EFuel)
+  = read_dwarf_section le is64 em img secs section (nth n flags false)
+  /\ snd (dwarf_calls le is64 em secs section (mkElfObj img) flags) = mkElfObj img.
+Proof.
+  intros Hn. rewrite dwarf_calls_map. cbn [fst snd eo_stream]. split; [|reflexivity].
+  rewrite (nth_indep _ (Err EFuel) (read_dwarf_section le is64 em img secs section false))
+    by (rewrite map_length; exact Hn).
+  apply map_nth.
+Qed.
+
+(* on an image holding the section, its .rel/.rela table and the symbol table: every call with
+   the flag set yields the reference application to the RAW section bytes, every call without
+   it the raw bytes, in any order and any number of times *)
+Theorem dwarf_calls_exact le is64 em img secs section rs symtab (rela : bool) es syms
+        pre tail pre2 tail2 :
+  In em listed_machines ->
+  find_relocations_for_section secs (s_name section) = Some rs ->
+  s_type rs = (if rela then SHT_RELA else SHT_REL) ->
+  s_entsize rs = rel_entsize is64 (is64 && is_mips em) rela ->
+  nth_error secs (Z.to_nat (s_link rs)) = Some symtab ->
+  s_entsize symtab = sym_entsize is64 -> s_size symtab = zlen (encode_symtab le is64 syms) ->
+  img = pre ++ encode_table le is64 (is64 && is_mips em) rela es ++ tail ->
+  s_off rs = zlen pre -> s_size rs = zlen (encode_table le is64 (is64 && is_mips em) rela es) ->
+  img = pre2 ++ encode_symtab le is64 syms ++ tail2 -> s_off symtab = zlen pre2 ->
+  forallb (sym_wf is64) syms = true -> snd (nth 0 syms (0, 0)) = 0 ->
+  forallb (rent_wf is64 (is64 && is_mips em) rela) es = true ->
+  let data := firstn (Z.to_nat (s_size section)) (zskipn (s_off section) img) in
+  all_bytes data = true -> zlen data < 2 ^ 63 ->
+  forallb (apply_entry_wf is64 em rela (zlen data)) es = true ->
+  forall flags,
+  dwarf_calls le is64 em secs section (mkElfObj img) flags
+  = (map (fun f : bool => if f then spec_apply_all le is64 em rela (map snd syms) data es else Ok data) flags,
+     mkElfObj img).
+Proof.
+  intros H1 H2 H3 H4 H5 H6 H7 H8 H9 H10 H11 H12 H13 H14 H15 data H16 H17 H18 flags.
+  rewrite dwarf_calls_map. cbn [eo_stream]. f_equal.
+  apply map_ext. intros f. destruct f.
+  - exact (read_dwarf_section_exact le is64 em img secs section rs symtab rela es syms pre tail pre2 tail2
+             H1 H2 H3 H4 H5 H6 H7 H8 H9 H10 H11 H12 H13 H14 H15 H16 H17 H18).
+  - apply no_relocation_when_disabled.
+Qed.
